@@ -264,7 +264,15 @@ func init() {
 		}
 		before := append([]byte{}, s.Data()...)
 		out := append([]byte{}, s.UpdateData()...)
-		return VOk(VL(VB(out), scteView(s), VB(before), VB(s.Data())))
+		view := scteView(s)
+		after := append([]byte{}, s.Data()...)
+		var rt Val
+		if s2, err := scte35.NewSCTE35(append([]byte{0}, out...)); err != nil {
+			rt = VErr(errCode(err))
+		} else {
+			rt = VOk(scteView(s2))
+		}
+		return VOk(VL(VB(out), view, VB(before), VB(after), rt))
 	})
 	register("scte.crc", func(a []Val) Val { return VB(gots.ComputeCRC(a[0].B)) })
 }
